@@ -516,7 +516,9 @@ def jobs(tier):
 
 
 BOUNDS = dict(
-    quick='5 filter classes; measured individuals 1..2, observables 1..2, '
+    quick='5 filter classes; measured individuals 1..2, observables 1..2 '
+          '(missing-value masks shared by or differing between the '
+          'observables), '
           'times 1..2 (parametric filters also 2x2x2; 1x1x3 for all time '
           'orders), simulated individuals '
           '2..3 (4 for the mixture; KDE with 3 simulated individuals only on '
